@@ -294,6 +294,12 @@ func (e *Endpoint) Write(s Spec) error {
 		var ss []http2.Setting
 		for _, kv := range s.Settings {
 			ss = append(ss, http2.Setting{ID: http2.SettingID(kv[0]), Val: kv[1]})
+			if http2.SettingID(kv[0]) == http2.SettingHeaderTableSize {
+				// this endpoint's own decoder holds exactly the table it announces: an encoder that keeps a larger
+				// table refers to entries the decoder has evicted and the block fails to decode
+				e.dec.SetAllowedMaxDynamicTableSize(kv[1])
+				e.dec.SetMaxDynamicTableSize(kv[1])
+			}
 		}
 		ev.Settings = s.Settings
 		err = e.fr.WriteSettings(ss...)
@@ -398,6 +404,11 @@ func (e *Endpoint) ReadLoop() {
 			ev := Event{T: "settings", MaxFrame: plen, Tick: vrt.Tick()}
 			f.ForeachSetting(func(s http2.Setting) error {
 				ev.Settings = append(ev.Settings, [2]uint32{uint32(s.ID), s.Val})
+				if s.ID == http2.SettingHeaderTableSize {
+					// like a real peer: the header table of this endpoint's encoder follows the size its peer announced
+					// (the encoder emits the dynamic table size update with the next block)
+					e.enc.SetMaxDynamicTableSize(s.Val)
+				}
 				return nil
 			})
 			e.Recv = append(e.Recv, ev)
